@@ -9,6 +9,9 @@ CHECKS = {
  'C16': dict(cat='proof', tech='Rocq proof (CRC-32C table/slicing-by-4/hardware loop = bit-serial definition for all strings, 4-byte burst theorem, varint/string codecs round trip + EOF strictness, block-size rule) + translation validation of the Murmur3/Spooky2 models and of vendored reference arrays',
              text='Codec and checksum functions are proved equal to closed definitions for every input; hash models and the current binary are validated against 19818 vendored digests and 8 vendored arrays written by the pinned reference (check, fix after wiping each disk, parity rebuild byte-exact).',
              ref='4/C16'),
+ 'C18': dict(cat='proof', tech='Rocq proof (glob matcher = declarative Matches relation; first-match, default direction, directory-rule, rooted-pattern and parse theorems for arbitrary rule lists; selection predicate) + correspondence with libc fnmatch, the repo fnmatch.c, filter_* direct calls and list/check/fix on generated trees',
+             text='The include/exclude decision procedure is proved against its declarative meaning for all rule lists and paths; the matcher and filters are executed against libc and the real elem.c on ~60k generated cases per run and against the real binary on generated configurations and trees with an independent tree walk as oracle.',
+             ref='4/C18'),
  'C03': dict(cat='proof', tech='Rocq proof (MDS of the 6x251 Cauchy and 3x251 power matrices by polynomial root counting in MathComp; Gauss-Jordan without pivoting never meets a zero pivot; combination enumerator and sorting networks) + unit correspondence of raid_rec/raid_data/raid_check/raid_scan in all decoder families against the known original stripe',
              text='All 3.8e11 minors are settled by theorems, not enumeration; the decoder/validator models are executed against the real raid/*.c (int8, ssse3, avx2, dispatcher) on exhaustive small geometries and boundary-aimed large ones, the oracle being the original stripe.',
              ref='4/C03'),
